@@ -138,6 +138,7 @@ func New(api frontend.API) *Chip {
 	}
 
 	c.rangeCheckerType = rangeCheckerType
+	verifEvent(api, "newchip", int(rangeCheckerType))
 
 	// If we are using the bit decomposition range checker, then create bitDecompChecker object
 	if c.rangeCheckerType == BIT_DECOMP_RANGE_CHECKER {
@@ -409,6 +410,7 @@ func (p *Chip) AssertIsEqual(x, y Variable) {
 }
 
 func (p *Chip) rangeCheckerCheck(x frontend.Variable, nbBits int) {
+	verifEvent(p.api, "rcreq", int(p.rangeCheckerType), x, nbBits)
 	switch p.rangeCheckerType {
 	case NATIVE_RANGE_CHECKER:
 	case BIT_DECOMP_RANGE_CHECKER:
@@ -426,6 +428,7 @@ func (p *Chip) checkCollected(api frontend.API) error {
 	}
 
 	nbBits := getOptimalBasewidth(p.api, p.rangeCheckCollected)
+	verifEvent(p.api, "rcflush", len(p.rangeCheckCollected), nbBits)
 	if nbBits != EXPECTED_OPTIMAL_BASEWIDTH {
 		panic("nbBits should be " + strconv.Itoa(EXPECTED_OPTIMAL_BASEWIDTH))
 	}
@@ -435,6 +438,7 @@ func (p *Chip) checkCollected(api frontend.API) error {
 			panic("v.bits is not nbBits aligned")
 		}
 
+		verifEvent(p.api, "rcdeliver", v.v, v.bits)
 		p.rangeChecker.Check(v.v, v.bits)
 	}
 
